@@ -20,7 +20,7 @@ def _clear_caches(ns_):
 PROPERTY = "C09"
 PL_OPS = ["evaluate", "evaluate_propositions", "assume", "reduce", "negate", "errors", "flatten", "to_json", "to_text", "to_short", "to_ge_polyhedron", "solve"]
 CFG_OPS = ["select", "add", "default_prios", "leafs", "ge_polyhedron", "to_json", "evaluate"]
-REGIONS = ["history:add", "history:assume", "history:negate", "history:reduce", "history-cfg", "history-plog"] + ["op:" + o for o in PL_OPS] + ["cfg-op:" + o for o in CFG_OPS] + ["interpretation-names-compound-id", "interpretation-names-top-id", "cache-key-equal-possible"]
+REGIONS = ["subclass-leaves", "history:add", "history:assume", "history:negate", "history:reduce", "history-cfg", "history-plog"] + ["op:" + o for o in PL_OPS] + ["cfg-op:" + o for o in CFG_OPS] + ["interpretation-names-compound-id", "interpretation-names-top-id", "cache-key-equal-possible"]
 BOUNDS = ("one call of each public operation from a freshly built model (PL family, <=7 compounds) or configurator (CFG family), with symbolic thresholds/signs/boxes "
           "where the operation does not cross the Rust encoder, and symbolic arguments: dictionaries over ALL ids (leaves, sub-propositions, the top id) with symbolic "
           "presence flags and values; a deep snapshot (class, id, generated flag, bounds, value, sign, prio, default, children) is compared before/after. "
@@ -50,6 +50,8 @@ def instantiations(tier, seed):
             conc = op in ("to_ge_polyhedron", "solve")
             m = F.rename(sk if conc else F.symbolize(sk), names)
             out.append({"part": "frame", "kind_": "plog", "model": m, "op": op})
+            if op in ("evaluate", "assume", "evaluate_propositions", "reduce") and k % 2 == 0:
+                out.append({"part": "frame", "kind_": "plog", "model": F.with_subclass_leaves(m), "op": op})
     for k, c in enumerate(cfg.cfg_family(tier, seed, n_quick=2, n_thorough=40)[:(6 if tier == "quick" else 200)]):
         for op in (CFG_OPS if (tier == "thorough" or k < 3) else [CFG_OPS[k % len(CFG_OPS)]]):
             out.append({"part": "frame", "kind_": "cfg", "model": c, "op": op})
@@ -64,14 +66,46 @@ def instantiations(tier, seed):
         m = F.rename(sk, F.ALT_NAMES[(k + seed) % len(F.ALT_NAMES)])
         for derive in ("assume", "negate", "reduce"):
             out.append({"part": "history", "kind_": "plog", "model": m, "derive": derive})
+        out.append({"part": "history", "kind_": "plog", "model": F.with_subclass_leaves(m), "derive": "assume"})
     for mu in ("expect_mutation",):
         out.append({"kind": "mutant", "mutant": mu, "part": "frame", "kind_": "plog", "op": "flatten",
                     "model": F.symbolize(F.AL(2, F.a(), F.i(), F.AL(1, F.b(), F.c(), id="B", sign=1), id="A", sign=1))})
     return out
 
 
+def _leafnodes(spec, acc=None):
+    acc = [] if acc is None else acc
+    if spec["t"] == "var":
+        acc.append(spec)
+    for c in spec.get("ch", []):
+        _leafnodes(c, acc)
+    return acc
+
+
 def _dummy_solver(P, objs):
     return [(np.zeros(P.A.shape[1], dtype=int), 0, 6) for _ in objs]
+
+
+import contextlib
+import os as _os
+
+
+@contextlib.contextmanager
+def _quiet_stderr():
+    """the Rust encoder prints its panic message to fd 2 before pyo3 raises PanicException; keep logs readable"""
+    try:
+        saved = _os.dup(2)
+        dn = _os.open(_os.devnull, _os.O_WRONLY)
+        _os.dup2(dn, 2)
+    except OSError:
+        yield
+        return
+    try:
+        yield
+    finally:
+        _os.dup2(saved, 2)
+        _os.close(dn)
+        _os.close(saved)
 
 
 def _observe(ns, obj, leaves):
@@ -90,7 +124,8 @@ def _observe(ns, obj, leaves):
     ev = obj.evaluate(dict(interp))
     out["evaluate"] = (int(ev.lower), int(ev.upper))
     try:
-        P = obj.to_ge_polyhedron(True)
+        with _quiet_stderr():
+            P = obj.to_ge_polyhedron(True)
         out["poly"] = (np.asarray(P).astype(int).tolist(), [str(v.id) for v in P.variables], [(int(v.bounds.lower), int(v.bounds.upper)) for v in P.variables])
     except (S.Abort, S.Inconclusive, S.HarnessError):
         raise
@@ -274,6 +309,8 @@ def run_inst(spec, run):
             return {"env": plh.conc_env(mm, env),
                     "arg": {k: [bool(S.model_int(mm, p.e)) if isinstance(p, S.SymBool) else bool(p), S.model_int(mm, v)] for k, (p, v) in d["ent"].items()}}
         run.region(("cfg-op:" if iscfg else "op:") + op)
+        if any(v.get("sub") for v in _leafnodes(model_spec)):
+            run.region("subclass-leaves")
         dec = d["arg"].decided
         if any(dec.get(c) for c in cids):
             run.region("interpretation-names-compound-id")
